@@ -128,7 +128,9 @@ Proof.
   unfold fstack_entry, set_stacks, stack_count. zsimp.
   destruct (outc s >? 0); [reflexivity|].
   destruct (q_filter (trig_of c (r_fn r))) as [[|]|]; zsimp; try reflexivity.
-  all: destruct (q_depth (trig_of c (r_fn r))); zsimp; try discriminate.
+  all: unfold loc_hidden; destruct (loc_of c (r_fn r)) as [[|]|]; destruct (fmode_in c); destruct (lmode_in c); zsimp;
+       try reflexivity.
+  all: destruct (q_depth (trig_of c (r_fn r))); zsimp; try discriminate; try reflexivity.
   all: repeat match goal with
        | |- context [if ?b then _ else _] => destruct b eqn:?; zsimp
        end; try reflexivity; try discriminate; intros; lia.
@@ -565,4 +567,17 @@ Example hyps_filter_depth_time :
 Proof.
   cbn zeta. split; [apply libcall_plt_free; reflexivity|]. split; [|reflexivity].
   intro f. unfold mkcfg. cbn [trig_of]. apply assoc_switch_free. reflexivity.
+Qed.
+
+(* -L (source location filter): the theorems above hold with it; an option set that uses it *)
+Example hyps_loc :
+  let c := mkcfgL [(4%N, {| q_filter := None; q_depth := Some 1; q_time := None; q_trace_on := false; q_trace_off := false;
+                           q_trace := false; q_caller := false; q_hide := false |})]
+                  false false 3 0 0 0 [] true false [(1%N, true); (2%N, true); (4%N, true); (3%N, false)] in
+  let f := [Call 0 1000 2000 [Call 1 1100 1500 [Call 2 1200 1400 [Call 3 1250 1300 []]]; Call 4 1600 1700 [Call 2 1610 1620 []]]] in
+  plt_free_all c /\ no_switch_all c /\ no_range c = true
+  /\ map ob_nd (select c f) = [(false, 1%N, 0); (false, 2%N, 1); (true, 2%N, 1); (true, 1%N, 0); (false, 4%N, 0); (true, 4%N, 0)].
+Proof.
+  cbn zeta. split; [apply libcall_plt_free; reflexivity|]. split; [|split; [reflexivity|vm_compute; reflexivity]].
+  intro f. unfold mkcfgL. cbn [trig_of]. apply assoc_switch_free. reflexivity.
 Qed.
